@@ -10,6 +10,7 @@ func propC04(c *Ctx) propInfo {
 	c.intFamily(true, false, false)
 	c.codecEngine()
 	c.magicRadix()
+	c.lossyConversions(excC03Lossy, "tlb", "wallet", "ton", "tl")
 	c.cursorFreeEncoders("E10.cursor-free-encode", excCursorFree, "tlb", "wallet", "abi")
 	c.externalEnvelope()
 	c.copyLiterals("E12.copy-literal", map[string]string{}, "tlb", "wallet", "ton", "abi", "liteapi")
